@@ -1,0 +1,6 @@
+//go:build verif
+
+package parser
+
+// VerifSplitFunc exposes splitFunc to the verification harness (verif build tag only).
+func VerifSplitFunc(data []byte, atEOF bool) (int, []byte, error) { return splitFunc(data, atEOF) }
